@@ -114,3 +114,20 @@ W w_visit(int64_t k1, int64_t x1, int64_t k2, int64_t x2, int64_t k3, int64_t x3
     try { out[1] = xtl::visit(vis3(), a, b, c); } catch (xtl::bad_variant_access&) { out[1] = -1; }
     return 0;
 }
+
+// ---- a variant with 258 trivial alternatives: the index type must distinguish every alternative from each other and from valueless ----
+template <int I> struct Tag { int v; };
+template <class S> struct mkbig;
+template <std::size_t... I> struct mkbig<std::index_sequence<I...>> { using type = xtl::variant<Tag<static_cast<int>(I)>...>; };
+typedef mkbig<std::make_index_sequence<258>>::type BigV;
+W w_big(int64_t which, int64_t x, int64_t* out)
+{
+    BigV v;
+    if (which == 0) v.emplace<254>(Tag<254>{static_cast<int>(x)}); else if (which == 1) v.emplace<255>(Tag<255>{static_cast<int>(x)});
+    else if (which == 2) v.emplace<256>(Tag<256>{static_cast<int>(x)}); else v = Tag<257>{static_cast<int>(x)};
+    out[0] = v.index() == xtl::variant_npos ? -1 : static_cast<int64_t>(v.index()); out[1] = v.valueless_by_exception();
+    out[2] = xtl::get_if<254>(&v) ? xtl::get_if<254>(&v)->v : xtl::get_if<255>(&v) ? xtl::get_if<255>(&v)->v : xtl::get_if<256>(&v) ? xtl::get_if<256>(&v)->v : xtl::get_if<257>(&v) ? xtl::get_if<257>(&v)->v : -7;
+    BigV w(v); out[3] = w.index() == xtl::variant_npos ? -1 : static_cast<int64_t>(w.index());
+    out[4] = (int64_t)xtl::holds_alternative<Tag<0>>(v) | (int64_t)xtl::holds_alternative<Tag<1>>(v) << 1;
+    return 0;
+}
